@@ -40,10 +40,6 @@ structure State where
 
 def getv (v : Values) (k : String) : Except Err Str := req (v.get k)
 
-/-- fields whose name starts with `pre`, sorted by name (`sorted([f for f in line if f.startswith(pre)])`) -/
-def fieldsWithPrefix (v : Values) (pre : String) : List (String × Str) :=
-  (v.filter fun (k, _) => pre.toList.isPrefixOf k.toList).mergeSort fun a b => a.1 ≤ b.1
-
 /-! ### Header handlers -/
 
 /-- `_parse_string` -/
@@ -223,6 +219,14 @@ def parseObservationEpoch (v : Values) (s : State) : Except Err State := do
 /-- the `k`-th 16-character observation field of the (left-justified) record body -/
 def obsField (body : Str) (k : Nat) : Str := Text.slice (16 * k) (16 * k + 16) body
 
+/-- the texts `value[0:14]`, `value[14:15]`, `value[15:16]` of the `n` 16-character fields of
+`line["obs"].ljust(16 * n)` -/
+def obsTriples (n : Nat) (obs : Str) : List (Str × Str × Str) :=
+  let body := ljust (16 * n) obs
+  (List.range n).map fun k =>
+    let f := obsField body k
+    (Text.slice 0 14 f, Text.slice 14 15 f, Text.slice 15 16 f)
+
 /-- `_parse_observation` -/
 def parseObservation (v : Values) (s : State) : Except Err State := do
   let e ← req s.cache.epoch
@@ -235,16 +239,14 @@ def parseObservation (v : Values) (s : State) : Except Err State := do
     let types ← match s.metaD.get [key "obstypes", sy] with
       | some (.list l) => pure l
       | _ => throw .other
-    let body := ljust (16 * types.length) obs
-    let step (acc : Except Err (Data × Nat)) (t : Str) : Except Err (Data × Nat) := do
-      let (d, k) ← acc
-      let f := obsField body k
-      let val ← floatOpt (Text.slice 0 14 f)
-      let lli ← floatOpt (Text.slice 14 15 f)
-      let snr ← floatOpt (Text.slice 15 16 f)
-      let d' ← d.appendObs t val lli snr
-      pure (d', k + 1)
-    let (d1, _) ← types.foldl step (pure (s.data, 0))
+    let step (acc : Except Err Data) (tf : Str × Str × Str × Str) : Except Err Data := do
+      let d ← acc
+      let (t, f) := tf
+      let val ← floatOpt f.1
+      let lli ← floatOpt f.2.1
+      let snr ← floatOpt f.2.2
+      d.appendObs t val lli snr
+    let d1 ← (types.zip (obsTriples types.length obs)).foldl step (pure s.data)
     let unused := s.obstypesAll.filter fun t => !types.contains t
     let d2 ← unused.foldlM (fun d t => d.appendObs t none none none) d1
     let station ← match s.metaD.get [key "marker_name"] with
